@@ -124,6 +124,10 @@ def float_sources(t) -> List[str]:
                     out.append('float(...)')
                 elif isinstance(f, tuple) and f[:2] == ('ref', 'ext') and f[2] in FLOAT_FUNCS_EXT:
                     out.append(f[2])
+            if x[:1] == ('binop',) and x[1] == '%' and isinstance(x[2], tuple) and x[2][:1] == ('const',) and isinstance(x[2][1], str):
+                import re as _re
+                if _re.search(r'%[-+ #0]*(\*|\d+)?(\.(\*|\d+))?[eEfFgG]', x[2][1]):
+                    out.append('printf-style %s formatting (converts a Decimal to a binary double first)' % _re.search(r'%[^%]*?[eEfFgG]', x[2][1]).group(0))
             if x[:1] == ('binop',) and x[1] == '/':
                 l, r = x[2], x[3]
                 def pyint(y):
